@@ -56,6 +56,25 @@ def scan_assumptions(a: asm.Assembled):
     return res
 
 
+def _workarounds_touching(fl, recoveries, fn_texts):
+    """The front-end workarounds (R25-R27, lost anchors) of the unit that concern the function whose proof failed: the function itself,
+    or a function it mentions by name (a callee whose contract clause was left out)."""
+    txt = fn_texts.get((fl.unit, fl.fn), '')
+    out = []
+    for w in recoveries:
+        if not w.startswith('[%s] ' % fl.unit):
+            continue
+        m = re.match(r'\[[^\]]+\] (R25|R26|R27|LOST) (.+?): ', w)
+        if not m:
+            out.append(w)
+            continue
+        item = m.group(2).strip()
+        short = item.split('::')[-1]
+        if fl.fn.endswith('::' + item) or fl.fn.endswith(item) or re.search(r'\b%s\b' % re.escape(short), txt):
+            out.append(w)
+    return out
+
+
 def main(argv):
     if len(argv) < 2:
         print(__doc__)
@@ -104,6 +123,7 @@ def main(argv):
     versions = set()
     rewrites = []
     recoveries = []
+    fn_texts = {}
     for unit, d in sorted(results.items()):
         r: runner.UnitResult = d['main']
         recoveries += ['[%s] %s' % (unit, x) for x in r.recoveries]
@@ -115,10 +135,15 @@ def main(argv):
             continue
         a = r.assembled
         base_sha = runner.baseline_fn_sha()
+        gen_bytes = a.text.encode('utf-8')
+        for f in a.fns:
+            fn_texts[(unit, '%s::%s' % (f.file, f.item))] = gen_bytes[f.gen_start:f.gen_end].decode('utf-8', 'replace')
         for f in a.fns:
             lab = '%s::%s' % (f.file, f.item)
             if f.lost and base_sha.get(lab) == f.sha256:
                 undecided.append('%s: annotation lost on an UNCHANGED function %s (framework defect): %s' % (unit, f.item, '; '.join(f.lost)[:300]))
+            elif f.lost:
+                recoveries.append('[%s] LOST %s: annotation without an anchor in the changed text left out: %s' % (unit, f.item, '; '.join(f.lost)[:300]))
         obs = [o for o in runner.static_obligations(a) if pid in o['tags']]
         if r.status in ('frontend', 'internal', 'rlimit'):
             undecided.append('%s: %s: %s' % (unit, r.status, r.detail[:600]))
@@ -275,13 +300,23 @@ def main(argv):
         path = os.path.join(REPLAYS, '%s-%s.json' % (pid, re.sub(r'[^A-Za-z0-9_.-]+', '_', fl.obligation)[:120]))
         rec = {'property': pid, 'obligation': fl.obligation, 'function': fl.fn, 'repo_location': fl.repo_loc,
                'clause': fl.clause, 'message': fl.message, 'verifier_output': fl.rendered, 'input': None,
-               'front_end_workarounds': [x for x in recoveries if x.startswith('[%s]' % fl.unit)]}
+               'front_end_workarounds': _workarounds_touching(fl, recoveries, fn_texts)}
         if fl.obligation.startswith('sweep:'):
             h = json.loads(fl.rendered)
             rec['input'] = h.get('scenario') or {'file': h['file'], 'width': h['width'], 'tab': h['tab'], 'reorder': h.get('reorder', False), 'oracle_says': h['why']}
             found = True
         else:
             found = replaymod.find_failing_input(pid, fl, rec)
+        if not found and rec['front_end_workarounds']:
+            # Part of the contract text could not be applied to the changed code (clauses or proof hints that no longer compile or lost
+            # their anchor, a new helper that has no contract yet).  A proof that fails in that situation may fail for lack of the hint
+            # or of the helper's contract, not because the code is wrong: without a failing input it stays undecided.
+            rec['verdict'] = 'undecided'
+            with open(path, 'w') as f:
+                json.dump(rec, f, indent=1)
+            undecided.append('obligation %s fails, but the contracts of unit %s only partly apply to the changed code (%s) and no failing input '
+                             'was found: adapt the contract text, see %s' % (fl.obligation, fl.unit, '; '.join(w.split('] ', 1)[-1][:90] for w in rec['front_end_workarounds'][:3]), path))
+            continue
         with open(path, 'w') as f:
             json.dump(rec, f, indent=1)
         replay_paths.append(path)
